@@ -219,6 +219,21 @@ def execute(case):
                 pass
             else:
                 res.fail("C18.nonmember_accepted", f"after {tag}: non-member {non!r} accepted")
+        if cos:
+            # a *label* is not a value: unless it happens to equal one of the objects, assigning it is rejected like any non-member
+            for lab in list(par().names or {}):
+                try:
+                    member = any(lab == o for _l, o in model)
+                except Exception:  # noqa: BLE001
+                    continue
+                if member or not isinstance(lab, str):
+                    continue
+                try:
+                    setattr(target, "s", [lab] if islist else lab)
+                except ValueError:
+                    continue
+                res.fail("C18.nonmember_accepted", f"after {tag}: the label {lab!r}, which is not one of the objects, was accepted as a value")
+                break
 
     compare("init")
     for step, op in enumerate(case["ops"]):
